@@ -6,11 +6,16 @@
 (*   MC   : Init = every (objects, shape, policy, method, column policy); one INVARIANT a clause *)
 (*   S2C  : InitGen = every (objects, shape); EvalGen prints the tree with the outcome the       *)
 (*          specification expects for every policy x method x column policy                      *)
-EXTENDS Series, TLC, Json
-CONSTANTS NP,       \* pairs of series over timestamps 1..NP in six container shapes (0 = none)
+(* Column policies are records (SyncLaw.tla): ij / oj / lj / rj / an explicit column set / none;     *)
+(* dict containers carry their class and their keys in insertion order (several shapes have the    *)
+(* keys in non-sorted order, nested, in OrderedDict / pyg Dict containers).                        *)
+EXTENDS SyncLaw, TLC, Json
+CONSTANTS NP,       \* pairs of series over timestamps 1..NP in nine container shapes (0 = none)
           NT,       \* triples of series over 1..NT in three shapes
           NF,       \* frame x frame x (series | leaf) over 1..NF in two shapes
           NA,       \* pairs / triples of bare arrays of lengths 0..NA
+          NC,       \* three frames on fixed indices over the column-set shapes (equal-sized overlapping / disjoint /
+                    \* identical / nested / single-column sets) in NC container shapes (0 = none)
           Light     \* TRUE: fewer container shapes and frame variants (the laws do not depend on the shape)
 
 VARIABLES tree, pol, m, colpol, done,
@@ -29,8 +34,10 @@ ArrU(i, n0) == UNION {{[k |-> "a", v |-> [p \in 1..n |-> IF p \in M THEN NaNC EL
 
 Leaf(n) == [k |-> "x", id |-> n]
 L(xs) == [k |-> "l", items |-> xs]
-D(ks, xs) == [k |-> "d", keys |-> ks, items |-> xs]
-Shapes2 == IF Light THEN {1, 4} ELSE 1..6
+Dc(cls, ks, xs) == [k |-> "d", cls |-> cls, keys |-> ks, items |-> xs]
+D(ks, xs) == Dc("dict", ks, xs)
+\* shapes 6..9: dict keys in non-sorted insertion order (top level and nested), OrderedDict / pyg Dict containers
+Shapes2 == IF Light THEN {1, 4, 8} ELSE 1..9
 Shape2(s, a, b) ==
     CASE s = 1 -> L(<<a, b>>)
       [] s = 2 -> D(<<"x", "y">>, <<a, b>>)
@@ -38,11 +45,16 @@ Shape2(s, a, b) ==
       [] s = 4 -> D(<<"x", "y">>, <<a, L(<<b, Leaf(2)>>)>>)
       [] s = 5 -> L(<<L(<<a>>), D(<<"z">>, <<b>>)>>)
       [] s = 6 -> D(<<"y", "x">>, <<Leaf(1), D(<<"u", "w">>, <<a, b>>)>>)
-Shapes3 == IF Light THEN {1, 2} ELSE 1..3
+      [] s = 7 -> D(<<"y", "x">>, <<a, b>>)
+      [] s = 8 -> Dc("odict", <<"z", "v", "u">>, <<a, Dc("odict", <<"w", "k">>, <<b, Leaf(2)>>), Leaf(1)>>)
+      [] s = 9 -> L(<<Dc("Dict", <<"y", "x">>, <<Leaf(3), a>>), D(<<"zz", "a b", "m">>, <<Leaf(0), b, Leaf(4)>>)>>)
+Shapes3 == IF Light THEN {1, 2, 4} ELSE 1..5
 Shape3(s, a, b, c) ==
     CASE s = 1 -> L(<<a, b, c>>)
       [] s = 2 -> D(<<"x", "y">>, <<a, L(<<b, D(<<"z">>, <<c>>)>>)>>)
       [] s = 3 -> L(<<a, L(<<b, c>>), Leaf(3)>>)
+      [] s = 4 -> D(<<"z", "y", "x">>, <<a, L(<<b, Leaf(1)>>), c>>)                      \* first met = "z", not the smallest key
+      [] s = 5 -> Dc("odict", <<"y", "x">>, <<L(<<a, Leaf(2)>>), Dc("Dict", <<"w", "u">>, <<b, c>>)>>)
 
 \* every shape over two timestamps; beyond that the flat list and one nested shape (the laws do not depend on the shape)
 Pairs   == IF NP = 0 THEN {} ELSE {Shape2(s, a, b) : s \in Shapes2, a \in SerU(1, IF NP < 2 THEN NP ELSE 2), b \in SerU(2, IF NP < 2 THEN NP ELSE 2)}
@@ -53,23 +65,35 @@ Frames  == IF NF = 0 THEN {} ELSE {Shape3(s, a, b, c) : s \in (IF Light THEN {1}
                                                           c \in {MkS({1}, LAMBDA x : VFlt(7, 1))} \cup (IF Light THEN {} ELSE {Leaf(1)})}
 Arrays  == IF NA = 0 THEN {} ELSE {Shape2(s, a, b) : s \in {1, 2, 3}, a \in ArrU(1, NA), b \in ArrU(2, NA)}
                                   \cup {Shape3(1, a, b, c) : a \in ArrU(1, NA), b \in ArrU(2, NA), c \in ArrU(3, NA)}
-Trees == Pairs \cup Triples \cup Frames \cup Arrays
-NX == Max({NP, NT, NF})
+\* column-set shapes: three frames on the fixed indices {1,2}, {2,3}, {1,2,3}; the first / the last multi-column frame is
+\* not always the first / last frame; equal-sized sets that overlap (ab, bc), are disjoint (ab, cd), identical (ab, ab),
+\* nested (abc, bc), single columns (p, q: not "multi-column", they keep theirs)
+CF(i, I, C) == MkF(I, C, LAMBDA c, x : IF i = 2 /\ c = "c" /\ x = 2 THEN NaNC ELSE VFlt(100 * i + 10 * ColNo(c) + x, 1))
+CSets1 == {{"a", "b"}, {"a", "b", "c"}, {"p"}}
+CSets2 == {{"b", "c"}, {"c", "d"}, {"a", "b"}, {"q"}}
+CSets3 == {{"a", "c"}, {"b", "c"}, {"q"}}
+ShapeC(s) == CASE s = 1 -> 1 [] s = 2 -> 4 [] s = 3 -> 5
+ColFrames == IF NC = 0 THEN {} ELSE {Shape3(ShapeC(s), CF(1, {1, 2}, C1), CF(2, {2, 3}, C2), CF(3, {1, 2, 3}, C3))
+                                     : s \in 1..NC, C1 \in CSets1, C2 \in CSets2, C3 \in CSets3}
+Trees == Pairs \cup Triples \cup Frames \cup Arrays \cup ColFrames
+NX == Max({NP, NT, NF, IF NC > 0 THEN 3 ELSE 0})
 Hows == {"ij", "oj", "lj", "rj"}
 IsArrays(tr) == TsLeaves(tr) = <<>> /\ ArrLeaves(tr) # <<>>
 Pols(tr) == IF IsArrays(tr) THEN {[how |-> h, t |-> <<>>] : h \in Hows} \cup {[how |-> "ex", t |-> <<>>, n |-> n] : n \in (IF Light THEN {0, NA + 1} ELSE 0..(NA + 1))}
             ELSE {[how |-> h, t |-> <<>>] : h \in Hows} \cup {[how |-> "ex", t |-> Asc(I)] : I \in (IF Light THEN {{2, NX + 1}} ELSE {{}, {1, NX}, {2, NX + 1}})}
 Methods == {"none", "ffill", "bfill"}
-ColPols(tr) == IF MultiLeaves(tr) # <<>> THEN {"ij", "oj", "none"} ELSE {"ij"}
+\* explicit column sets: some frames have some of them; a single column; one nobody has
+ExCols == IF Light THEN {<<"a", "c">>} ELSE {<<"a", "c">>, <<"b">>, <<"c", "d", "e">>}
+ColPols(tr) == IF MultiLeaves(tr) # <<>> THEN {ColPol(h) : h \in Hows} \cup {NoCols} \cup {ColEx(cs) : cs \in ExCols} ELSE {ColPol("ij")}
 
 Init == tree \in Trees /\ pol \in Pols(tree) /\ m \in Methods /\ colpol \in ColPols(tree) /\ done = FALSE /\ res = <<>>
-InitGen == tree \in Trees /\ pol = [how |-> "ij", t |-> <<>>] /\ m = "none" /\ colpol = "ij" /\ done = FALSE /\ res = <<>>
+InitGen == tree \in Trees /\ pol = [how |-> "ij", t |-> <<>>] /\ m = "none" /\ colpol = ColPol("ij") /\ done = FALSE /\ res = <<>>
 \* collections without frames have one reading only
 ReadingsOf(tr) == IF \E i \in 1..Len(TsLeaves(tr)) : IsF(TsLeaves(tr)[i]) THEN Readings ELSE {"row"}
 Eval == /\ done = FALSE /\ done' = TRUE /\ UNCHANGED <<tree, pol, m, colpol>>
-        /\ res' = [rd \in ReadingsOf(tree) |-> Sync(tree, pol, m, colpol, rd)]
+        /\ res' = [rd \in ReadingsOf(tree) |-> SyncX(tree, pol, m, colpol, rd)]
 Expect(p, mm, cp) == [pol |-> p, m |-> mm, cols |-> cp,
-                      sync |-> SetToSeq(SyncOutcomes(tree, p, mm, cp)),
+                      sync |-> SetToSeq(SyncOutcomesX(tree, p, mm, cp)),
                       index |-> JointOutcome(tree, p)]
 EvalGen == done = FALSE /\ done' = TRUE /\ UNCHANGED <<tree, pol, m, colpol, res>> /\ PrintT(ToJson([tree |-> tree,
                                   exp |-> SetToSeq({Expect(p, mm, cp) : p \in Pols(tree), mm \in Methods, cp \in ColPols(tree)})]))
@@ -101,19 +125,35 @@ AsOfJoin == ForReadings(LAMBDA ins, outs, I, rd : m # "none" => \A i \in 1..Len(
         IF seen = {} THEN IsNaN(SVal(b, x))
         ELSE \E u \in seen : SVal(b, x) = SVal(a, u) /\ \A w \in seen : (IF m = "ffill" THEN w <= u ELSE w >= u))
 \* multi-column frames end on the common column set, a column they lacked is NaN; others keep theirs
-ColumnsAligned == ForReadings(LAMBDA ins, outs, I, rd : (colpol # "none" /\ MultiLeaves(tree) # <<>>) =>
-    LET C == ColsOf(tree, colpol) IN
+ColumnsAligned == ForReadings(LAMBDA ins, outs, I, rd : Recolumns(tree, colpol) =>
+    LET C == ColsOfX(tree, colpol) IN
     \A i \in 1..Len(ins) :
         LET a == ins[i]  b == outs[i] IN
         IF IsMulti(a) THEN /\ IsF(b) /\ Cols(b) = C
                            /\ \A c \in Cols(b) \ Cols(a) : \A x \in I : IsNaN(FVal(b, c, x))
         ELSE b.k = a.k /\ (IsF(a) => b.c = a.c))
+\* the common column set, said once more without the operators of the law: a column is in the result of every
+\* multi-column frame iff all of them had it (ij) / one of them had it (oj) / the first one met had it (lj) / the last
+\* one met had it (rj) / it was asked for (explicit)
+ColumnPolicy == ForReadings(LAMBDA ins, outs, I, rd : Recolumns(tree, colpol) =>
+    LET mi == {i \in 1..Len(ins) : IsMulti(ins[i])}
+        first == CHOOSE i \in mi : \A j \in mi : i <= j
+        last  == CHOOSE i \in mi : \A j \in mi : i >= j
+    IN  \A i \in mi : \A c \in Range(ColU) :
+            (c \in Cols(outs[i])) <=> CASE colpol.how = "ij" -> \A j \in mi : c \in Cols(ins[j])
+                                         [] colpol.how = "oj" -> \E j \in mi : c \in Cols(ins[j])
+                                         [] colpol.how = "lj" -> c \in Cols(ins[first])
+                                         [] colpol.how = "rj" -> c \in Cols(ins[last])
+                                         [] colpol.how = "ex" -> \E k \in 1..Len(colpol.c) : colpol.c[k] = c)
+\* a dict comes back as a dict of the same class with the same keys in the same (insertion) order, at every level;
+\* in particular sorting the keys is a change of structure whenever they were not sorted
+DictOrderKept == done => \A rd \in DOMAIN res : DictNodes(res[rd]) = DictNodes(tree)
 \* container structure preserved, non-timeseries members passed through (identity)
 StructureKept == done => \A rd \in DOMAIN res : Skeleton(res[rd]) = Skeleton(tree)
 \* synchronising twice changes nothing (under the "row" reading of a fill a frame that lost columns may
 \* have a new all-NaN row, which a second fill treats differently: excluded)
 Idempotent == done => \A rd \in DOMAIN res :
-                  (rd = "cell" \/ m = "none" \/ colpol = "none" \/ MultiLeaves(tree) = <<>>) => Sync(res[rd], pol, m, colpol, rd) = res[rd]
+                  (rd = "cell" \/ m = "none" \/ ~Recolumns(tree, colpol)) => SyncX(res[rd], pol, m, colpol, rd) = res[rd]
 \* ij within lj, rj within oj
 PolicyOrder == (done /\ TsLeaves(tree) # <<>>) =>
                    LET S(h) == IndexOf(tree, [how |-> h, t |-> <<>>]) IN
@@ -129,9 +169,9 @@ PlainAsOf(s, I, mm) == MkS(I, LAMBDA x : LET ok == {u \in Times(s) : IF mm = "ff
 MechanismIsLaw == ForReadings(LAMBDA ins, outs, I, rd : m # "none" =>
                       \A i \in 1..Len(ins) : IsS(ins[i]) => PlainAsOf(DropNaN(ins[i]), I, m) = outs[i])
 \* the per-column call discipline of presync shows exactly the columns of the synchronised frames
-PerColumnIsWhole == ForReadings(LAMBDA ins, outs, I, rd : (colpol # "none" /\ MultiLeaves(tree) # <<>>) =>
-    LET plain == Sync(tree, pol, m, "none", rd) IN
-    \A c \in ColsOf(tree, colpol) :
+PerColumnIsWhole == ForReadings(LAMBDA ins, outs, I, rd : Recolumns(tree, colpol) =>
+    LET plain == SyncX(tree, pol, m, NoCols, rd) IN
+    \A c \in ColsOfX(tree, colpol) :
         LET view == TsLeaves(ColView(plain, c, FALSE)) IN
         \A i \in 1..Len(outs) : IsMulti(ins[i]) => view[i] = AsSeries(outs[i], c))
 
